@@ -245,6 +245,8 @@ package whispertool
 //@                 && result0.archiveCount == len(archiveInfoList)
 //@                 && result0.maxRetention == retention(archiveInfoList[len(archiveInfoList)-1])
 //@   ensures fail: result1 != nil ==> result0 == nil
+//@   ensures order_kept: forall j :: 0 <= j && j < len(archiveInfoList) ==> archiveInfoList[j].secondsPerPoint == old(archiveInfoList[j].secondsPerPoint)
+//@                 && archiveInfoList[j].numberOfPoints == old(archiveInfoList[j].numberOfPoints)
 
 //@ func (*Header).AppendTo
 //@   props C14 C06
